@@ -170,7 +170,7 @@ def census_diff():
 
 
 # what a run has to contain to count as the run the evidence describes: ABSOLUTE floors (scaled down
-# only for runs below 100 000 lines); fixed lists K, S, V have 1.24x-1.4x margin (seed-independent), the seeded kinds at least 7x (see docs/C08.md)
+# only for runs below 100 000 lines); fixed lists: K 124/100 = 1.24x, V 276/100 = 2.76x, S 1402 fixed (1.40x) + about 170 seeded compressed variants (1.55-1.58x); the seeded kinds at least 7x (see docs/C08.md)
 KIND_FLOORS = {"K": 100, "W": 800, "T": 5000, "U": 8000, "M": 20000, "C": 2000, "R": 5000, "P": 2000, "S": 1000,
                "Q": 2000, "F": 2000, "V": 100}
 NOTRUN_CAP = 20
@@ -304,7 +304,7 @@ SPEC = {
              "S = custom-type strings through every branch of the string parser and 40 character-level damages of each; "
              "Q = two consecutive frames (whole / cut / first one mutated) delivered by a custom AsyncRead in chunks "
              "(1 byte at a time, 8+1+1+3, 9+1+rest, all at once, random 1..5, random 1..64; the schedule is reported as sch=), the first decoded, then a second read_response_frame on the same reader; "
-             "both reads compared with the extracted model of the chunked reader (read_frame_chunked / reader_after on the chunks of that schedule), which must also agree with the all-at-once read_frame; "
+             "both reads compared with the extracted model of the chunked reader (read_frame_chunked / reader_after on the chunks of that schedule), which must also agree with the all-at-once read_frame (by C08_chunking the schedule cannot change a verdict); "
              "V = 138 fixed Rows frames (276 with their compressed variants) with one typed cell whose element count is inflated (list / set / map / nested list: 2^16, 2^24, i32::MAX with 0, 1, 8 elements behind, the count cut; an honest 2^10 for contrast; vectors with 65535 declared dimensions), both decoder generations; "
              "F = mutations derived from the extracted encoder: one length / count / id / flag field of the AST re-encoded with a boundary value or off by one. "
              "Every V case and one in eight of M, U, F, S also with the damaged body behind a valid LZ4 / Snappy layer (same kind letter, mode l / s). "
@@ -324,8 +324,8 @@ SPEC = {
     "assumptions": [
         "custom-type strings with non-ASCII characters are not modelled (char::is_alphanumeric / is_whitespace tables): the model declines, the tie then only checks that the implementation neither crashes nor over-allocates",
         "absence of panics in the Rust code for ALL inputs is not a theorem; it is supported by the tie",
-        "'does not terminate' is judged in CPU time of the child (30 s quick / 60 s thorough on one input, alone in a fresh child); a wall-clock stall with less CPU time is counted not-run (env-stall)",
-        "the stack prediction's two constants (16 KiB base, 1.5 KiB per level of type nesting) are measured on the debug-profile harness, not derived from the code; C08_stack is about the prediction",
+        "'does not terminate' is judged in CPU time of the child (10 s quick / 20 s thorough on one input, alone in a fresh child); a wall-clock stall with less CPU time is counted not-run (env-stall)",
+        "the stack prediction's two constants (16 KiB base, 1.5 KiB per level of type nesting) are measured on the debug-profile harness, not derived from the code; C08_stack is an arithmetical corollary of C08_depth about the prediction",
         "C08_alloc is proved of the model's ghost counter; the driver APPLIES that bound (largest request) and twice it (total; no theorem) to the allocator's measurements",
     ],
     "post": post,
